@@ -357,10 +357,45 @@ pub fn kop_usize<A: VC, const K: usize>(st: &mut St<A>, name: &str, t: &mut Toks
         "krev" => {
             let mut k = cur;
             k.rev();
+            let mut k2 = cur;
+            <Kmer<A, K, usize> as ReverseMut>::rev(&mut k2);
+            assert!(k == k2, "Kmer::rev: method call and trait call differ");
             set(st, k);
         }
         "ktorev" => {
-            set(st, cur.to_rev());
+            let a = cur.to_rev();
+            let b = <Kmer<A, K, usize> as Reverse>::to_rev(&cur);
+            assert!(a == b, "Kmer::to_rev: method call and trait call differ");
+            set(st, a);
+        }
+        "kview" => {
+            // slice methods with the k-mer itself as the receiver (reached through Deref unless the
+            // k-mer type has a method of that name)
+            let n = t.num();
+            let mut o = vec![cur.len().to_string()];
+            o.extend(cur.iter().map(|x| x.to_bits().to_string()));
+            assert!(cur.is_empty() == (K == 0), "Kmer::is_empty");
+            let viewed: &SeqSlice<A> = &cur;
+            assert!(crate::vc::same_codes(&cur[..], viewed), "indexing a k-mer");
+            let r1: Vec<u8> = cur.rev_iter().map(|x| x.to_bits()).collect();
+            let mut r2: Vec<u8> = cur.iter().map(|x| x.to_bits()).collect();
+            r2.reverse();
+            assert!(r1 == r2, "Kmer::rev_iter");
+            for i in 0..K {
+                assert!(cur.nth(i).to_bits() == r2[K - 1 - i], "Kmer::nth");
+            }
+            assert!(cur.to_string() == viewed.to_string(), "Display of a k-mer and of its slice differ");
+            o.push("777".into());
+            for i in 0..n {
+                match cur.get(i) {
+                    Some(x) => {
+                        o.push("1".into());
+                        o.push(x.to_bits().to_string());
+                    }
+                    None => o.push("0".into()),
+                }
+            }
+            st.out.push(o.join(" "));
         }
         "kfromseq" => {
             let r = t.num();
@@ -461,15 +496,31 @@ pub fn kop_dna<const K: usize>(st: &mut St<Dna>, name: &str) -> bool {
         "kcomp" => {
             let mut k = cur;
             k.comp();
+            let mut k2 = cur;
+            <Kmer<Dna, K, usize> as ComplementMut>::comp(&mut k2);
+            assert!(k == k2, "Kmer::comp: method call and trait call differ");
             set(st, k);
         }
-        "ktocomp" => set(st, cur.to_comp()),
+        "ktocomp" => {
+            let a = cur.to_comp();
+            let b = <Kmer<Dna, K, usize> as Complement>::to_comp(&cur);
+            assert!(a == b, "Kmer::to_comp: method call and trait call differ");
+            set(st, a)
+        }
         "krevcomp" => {
             let mut k = cur;
             k.revcomp();
+            let mut k2 = cur;
+            <Kmer<Dna, K, usize> as ReverseComplementMut>::revcomp(&mut k2);
+            assert!(k == k2, "Kmer::revcomp: method call and trait call differ");
             set(st, k);
         }
-        "ktorevcomp" => set(st, cur.to_revcomp()),
+        "ktorevcomp" => {
+            let a = cur.to_revcomp();
+            let b = <Kmer<Dna, K, usize> as ReverseComplement>::to_revcomp(&cur);
+            assert!(a == b, "Kmer::to_revcomp: method call and trait call differ");
+            set(st, a)
+        }
         _ => return false,
     }
     true
@@ -484,8 +535,19 @@ pub trait KD: VC {
     fn contains(_m: usize, _regs: &[Seq<Self>], _a: &Sd, _b: &Sd) -> Option<bool> {
         None
     }
-    fn seq_cmp(_a: &Seq<Self>, _b: &Seq<Self>) -> Option<(core::cmp::Ordering, Option<core::cmp::Ordering>)> {
-        None
+    fn seq_cmp(a: &Seq<Self>, b: &Seq<Self>) -> Option<(core::cmp::Ordering, Option<core::cmp::Ordering>)> {
+        use core::cmp::Ordering::*;
+        let c = Ord::cmp(a, b);
+        assert!(a.cmp(b) == c, "Seq::cmp: method call and trait call differ");
+        // the operators and the provided methods agree with cmp
+        assert!((a < b) == (c == Less) && (a <= b) == (c != Greater), "Seq: < / <= disagree with cmp");
+        assert!((a > b) == (c == Greater) && (a >= b) == (c != Less), "Seq: > / >= disagree with cmp");
+        assert!((a != b) == !(a == b), "Seq: != is not the negation of ==");
+        let mx = Ord::max(a, b);
+        let mn = Ord::min(a, b);
+        assert!(crate::vc::same_codes(mx, if c == Greater { a } else { b }), "Seq: max disagrees with cmp");
+        assert!(crate::vc::same_codes(mn, if c == Greater { b } else { a }), "Seq: min disagrees with cmp");
+        Some((c, a.partial_cmp(b)))
     }
     /// observations on a SeqArray built from codes (codecs of the literal macros only)
     fn arr(_cs: &[usize], _other: &SeqSlice<Self>) -> Option<Vec<String>> {
@@ -556,6 +618,16 @@ fn arr_kmer<A: VC, const N: usize>(cs: &[usize], other: &SeqSlice<A>) -> Vec<Str
     let sl: &SeqSlice<A> = &a;
     let k: Kmer<A, N> = Kmer::try_from(sl).expect("kmer from array");
     let mut o = vec![((k == a) as u8).to_string(), ((k == &a) as u8).to_string()];
+    {
+        let k64: Kmer<A, N, u64> = Kmer::try_from(sl).expect("u64 kmer from array");
+        let k128: Kmer<A, N, u128> = Kmer::try_from(sl).expect("u128 kmer from array");
+        assert!(k64 == a && k64 == &a && k128 == a && k128 == &a, "Kmer<u64/u128> == SeqArray of the same content");
+        if let (Ok(x), Ok(y)) = (Kmer::<A, N, u64>::try_from(other), Kmer::<A, N, u128>::try_from(other)) {
+            let same = crate::vc::same_codes(other, sl);
+            assert!((x == a) == same && (y == a) == same && (x == &a) == same && (y == &a) == same,
+                    "Kmer<u64/u128> == SeqArray disagrees with the contents");
+        }
+    }
     // a k-mer with other content (when the other slice has the right length)
     match Kmer::<A, N>::try_from(other) {
         Ok(k2) => {
@@ -572,10 +644,33 @@ fn arr_kmer<A: VC, const N: usize>(cs: &[usize], other: &SeqSlice<A>) -> Vec<Str
 
 impl KD for Dna {
     fn arr(cs: &[usize], other: &SeqSlice<Self>) -> Option<Vec<String>> {
-        arr_dispatch!(cs, other, 2, [(1, 1), (2, 1), (3, 1), (4, 1), (5, 1), (8, 1), (16, 1), (31, 1), (32, 1), (33, 2), (40, 2), (64, 2), (65, 3)])
-    }
-    fn seq_cmp(a: &Seq<Self>, b: &Seq<Self>) -> Option<(core::cmp::Ordering, Option<core::cmp::Ordering>)> {
-        Some((a.cmp(b), a.partial_cmp(b)))
+        use bio_seq::seq::SeqArray;
+        let mut o = arr_dispatch!(cs, other, 2, [(1, 1), (2, 1), (3, 1), (4, 1), (5, 1), (8, 1), (16, 1), (31, 1), (32, 1), (33, 2), (40, 2), (64, 2), (65, 3)])?;
+        // From<&SeqArray<Dna, N, W>> / From<SeqArray<Dna, N, W>> for Seq<Iupac> and Seq<text::Dna>
+        macro_rules! conv {
+            ($(($n:literal, $w:literal)),*) => {
+                match cs.len() {
+                    $( $n => {
+                        let mk = || SeqArray::<Dna, $n, $w> { _p: PhantomData, ba: bitvec::array::BitArray::new(arr_words::<$w>(cs, 2)) };
+                        let a = mk();
+                        let i1: Seq<Iupac> = Seq::from(&a);
+                        let i2: Seq<Iupac> = Seq::from(mk());
+                        assert!(crate::vc::same_codes(&i1, &i2), "SeqArray -> Seq<Iupac>: borrowed and owned differ");
+                        let t1: Seq<text::Dna> = Seq::from(&a);
+                        let t2: Seq<text::Dna> = Seq::from(mk());
+                        assert!(crate::vc::same_codes(&t1, &t2), "SeqArray -> Seq<text::Dna>: borrowed and owned differ");
+                        (lencodes::<Iupac>(&i1), lencodes::<text::Dna>(&t1))
+                    } )*
+                    _ => unreachable!(),
+                }
+            };
+        }
+        let (i, tx) = conv!((1, 1), (2, 1), (3, 1), (4, 1), (5, 1), (8, 1), (16, 1), (31, 1), (32, 1), (33, 2), (40, 2), (64, 2), (65, 3));
+        o.push("777".into());
+        o.extend(i);
+        o.push("777".into());
+        o.extend(tx);
+        Some(o)
     }
     fn kdispatch(st: &mut St<Self>, k: usize, w: u8, name: &str, t: &mut Toks) {
         kd_arms!(st, k, w, name, t, true, true ;
@@ -696,9 +791,6 @@ impl KD for Amino {
     }
 }
 impl KD for text::Dna {
-    fn seq_cmp(a: &Seq<Self>, b: &Seq<Self>) -> Option<(core::cmp::Ordering, Option<core::cmp::Ordering>)> {
-        Some((a.cmp(b), a.partial_cmp(b)))
-    }
     fn kdispatch(st: &mut St<Self>, k: usize, w: u8, name: &str, t: &mut Toks) {
         kd_arms!(st, k, w, name, t, false, true ;
             us: [1,2,3,4,5,6,7,8] ;
@@ -706,9 +798,6 @@ impl KD for text::Dna {
     }
 }
 impl KD for masked::Dna {
-    fn seq_cmp(a: &Seq<Self>, b: &Seq<Self>) -> Option<(core::cmp::Ordering, Option<core::cmp::Ordering>)> {
-        Some((a.cmp(b), a.partial_cmp(b)))
-    }
     fn kdispatch(st: &mut St<Self>, k: usize, w: u8, name: &str, t: &mut Toks) {
         kd_arms!(st, k, w, name, t, false, true ;
             us: [1,2,3,4,5,6,7,8,9,10,11,12,13,14,15,16] ;
@@ -716,9 +805,6 @@ impl KD for masked::Dna {
     }
 }
 impl KD for masked::Iupac {
-    fn seq_cmp(a: &Seq<Self>, b: &Seq<Self>) -> Option<(core::cmp::Ordering, Option<core::cmp::Ordering>)> {
-        Some((a.cmp(b), a.partial_cmp(b)))
-    }
     fn kdispatch(st: &mut St<Self>, k: usize, w: u8, name: &str, t: &mut Toks) {
         kd_arms!(st, k, w, name, t, false, true ;
             us: [1,2,3,4,5,6,7,8,9,10,11,12] ;
@@ -726,9 +812,6 @@ impl KD for masked::Iupac {
     }
 }
 impl KD for degenerate::Dna {
-    fn seq_cmp(a: &Seq<Self>, b: &Seq<Self>) -> Option<(core::cmp::Ordering, Option<core::cmp::Ordering>)> {
-        Some((a.cmp(b), a.partial_cmp(b)))
-    }
     fn kdispatch(st: &mut St<Self>, k: usize, w: u8, name: &str, t: &mut Toks) {
         kd_arms!(st, k, w, name, t, false, true ;
             us: [1,2,3,7,8,9,31,32,33,63,64] ;
@@ -801,6 +884,56 @@ fn iter_protocol<T: PartialEq, I: Iterator<Item = T>>(mk: impl Fn() -> I, items:
         });
         if folded.len() != n || folded.iter().zip(items.iter()).any(|(a, b)| a != b) {
             return 11;
+        }
+    }
+    // provided methods a specialised override could get wrong
+    {
+        let mut seen = 0usize;
+        let r: Result<(), ()> = mk().try_for_each(|_| {
+            seen += 1;
+            Ok(())
+        });
+        if r.is_err() || seen != n {
+            return 12;
+        }
+        for k in [0usize, 1, n / 2, n.saturating_sub(1)] {
+            if k >= n {
+                continue;
+            }
+            // find / position / any by index (items may repeat, so search by position)
+            let mut i = 0usize;
+            let f = mk().find(|_| {
+                i += 1;
+                i == k + 1
+            });
+            if f.as_ref() != items.get(k) {
+                return 13;
+            }
+            let mut j = 0usize;
+            let p = mk().position(|_| {
+                j += 1;
+                j == k + 1
+            });
+            if p != Some(k) {
+                return 14;
+            }
+        }
+        if mk().all(|_| true) != true || mk().any(|_| false) != false {
+            return 15;
+        }
+        let taken: Vec<T> = mk().take(3).collect();
+        if taken.len() != n.min(3) || taken.iter().zip(items.iter()).any(|(a, b)| a != b) {
+            return 16;
+        }
+        let en: Vec<(usize, T)> = mk().enumerate().collect();
+        if en.len() != n || en.iter().enumerate().any(|(i, (j, x))| i != *j || *x != items[i]) {
+            return 17;
+        }
+        let zipped: Vec<(T, T)> = mk().zip(mk().skip(1)).collect();
+        if zipped.len() != n.saturating_sub(1)
+            || zipped.iter().enumerate().any(|(i, (a, b))| *a != items[i] || *b != items[i + 1])
+        {
+            return 18;
         }
     }
     for (sk, st) in [(0usize, 3usize), (1, 3), (2, 3), (1, 2), (n / 2, 1)] {
@@ -961,6 +1094,8 @@ where
         "clone" => {
             let r = t.num();
             let c = st.regs[r].clone();
+            let d = <Seq<A> as Clone>::clone(&st.regs[r]);
+            assert!(crate::vc::same_codes(&c, &d), "clone: method call and trait call differ");
             st.regs.push(c);
         }
         "toowned" => {
@@ -1085,7 +1220,11 @@ where
         "extend" => {
             let r = t.num();
             let cs: Vec<A> = t.list().into_iter().map(sym::<A>).collect();
+            // the Extend trait (what generic code and adaptors such as unzip use) and the inherent method
+            let mut u = st.regs[r].clone();
+            <Seq<A> as Extend<A>>::extend(&mut u, cs.iter().copied());
             st.regs[r].extend(cs);
+            assert!(crate::vc::same_codes(&u, &st.regs[r]), "Extend::extend and Seq::extend differ");
         }
         "append" | "prepend" | "insert" => {
             let r = t.num();
@@ -1137,7 +1276,10 @@ where
         }
         "rev" => {
             let r = t.num();
+            let mut u = st.regs[r].clone();
+            <Seq<A> as ReverseMut>::rev(&mut u);
             st.regs[r].rev();
+            assert!(crate::vc::same_codes(&u, &st.regs[r]), "Seq::rev: method call and trait call differ");
         }
         "comp" => {
             let r = t.num();
@@ -1291,6 +1433,15 @@ where
                 .chain(slice_of(&st.regs, &b))
                 .map(|x| x.to_bits().to_string())
                 .collect();
+            {
+                let (sa, sb) = (slice_of(&st.regs, &a), slice_of(&st.regs, &b));
+                let items: Vec<A> = sa.chain(sb).collect();
+                let bad = iter_protocol(|| sa.chain(sb), &items);
+                if bad != 0 {
+                    st.out.push(format!("4294967293 {bad}"));
+                    return;
+                }
+            }
             if a.ranges.is_empty() && b.ranges.is_empty() {
                 let w: Vec<String> = st.regs[a.reg]
                     .chain(&st.regs[b.reg])
@@ -1397,6 +1548,10 @@ where
             let mut m: HashMap<Seq<A>, usize> = HashMap::new();
             m.insert(st.regs[r].clone(), 7);
             let q = slice_of(&st.regs, &sd);
+            // a map keyed by references to owned sequences (Borrow<SeqSlice> for &Seq)
+            let mut m2: HashMap<&Seq<A>, usize> = HashMap::new();
+            m2.insert(&st.regs[r], 7);
+            assert!(m2.get(q).is_some() == m.get(q).is_some(), "HashMap<&Seq,_> and HashMap<Seq,_> lookups differ");
             st.out.push((m.get(q).is_some() as u8).to_string());
         }
         "contains" => {
@@ -1434,7 +1589,10 @@ where
                 }
             }
             let bv = full[h..].to_bitvec();
-            st.regs.push(Seq::from(bv));
+            let via_slice: Seq<A> = Seq::from(&full[h..]);
+            let via_vec: Seq<A> = Seq::from(bv);
+            assert!(crate::vc::same_codes(&via_slice, &via_vec), "Seq::from(&BitSlice) and Seq::from(BitVec) differ");
+            st.regs.push(via_vec);
         }
         "arr" => {
             let cs = t.list();
